@@ -57,6 +57,27 @@ def run(tier):
              ("limit adjustment at initialisation", lambda: discdrv.check_adjust(data["adj"], data["awadj"]), 2 * len(data["adj"]) + len(data["awadj"])),
              ("AntiWindup iteration lock", lambda: discdrv.check_aw_lock(data["awlock"]), len(data["awlock"])),
              ("SortedLimiter", lambda: discdrv.check_sorted(data["sorted"] if not quick else data["sorted"][::3]), len(data["sorted"]) // (3 if quick else 1))]
+    # the switched-shunt adjuster as a state machine: model-checked (level in range, one step per evaluation, dwell time, closed gate,
+    # out-of-service devices), then every enumerated call sequence replayed on the real ShuntAdjust + SwBlock
+    rmc = run_tlc("MC_ShuntSw", "MC_ShuntSw.cfg", timeout=900)
+    rep.add_tlc(rmc, "MC_ShuntSw (LevelInRange, OneStepPerEvaluation, DwellTime, ClosedGateChangesNothing, OutOfServiceNeverSwitches)")
+    if rmc["machinery_ok"] and rmc["violation"]:
+        rep.note("design-level counterexample in MC_ShuntSw: %s" % rmc["violation"])
+    d2 = scratch_dir("sw")
+    try:
+        out2 = os.path.join(d2, "sw.json")
+        r2 = run_tlc("Scen_ShuntSw", "Scen_ShuntSw.cfg", workers=1, timeout=900, env={"OUT": out2})
+        rep.add_tlc(r2, "Scen_ShuntSw (call sequences with prescribed levels)")
+        swdata = json.load(open(out2)) if os.path.exists(out2) else None
+    finally:
+        shutil.rmtree(d2, ignore_errors=True)
+    if swdata is None:
+        rep.machinery("ShuntSw enumeration failed", r2["out"][-1200:])
+    else:
+        if quick:
+            swdata["cases"] = swdata["cases"][::4]
+        parts.append(("ShuntAdjust", lambda: discdrv.check_shuntsw(swdata), len(swdata["cases"])))
+        rep.states += len(swdata["cases"])
     for name, fn, n in parts:
         try:
             bad = fn()
@@ -102,7 +123,7 @@ def run(tier):
                 "the bounds); simulations with active limiters; non-trivial = a history with a repeated or rewound stamp, a lattice point")
     rep.assume("ordered limits (lower < upper) are the precondition of the one-hot clause; lower = upper = input with inclusive comparison "
                "sets both flags (degenerate pair, documented in DESIGN.md)")
-    rep.assume("ShuntAdjust is exercised only through simulations; SortedLimiter with relative violations (abs_violation = 0) is not covered")
+    rep.assume("SortedLimiter with relative violations (abs_violation = 0) is not covered")
     return rep.finish()
 
 
